@@ -247,10 +247,10 @@ Definition eval_seg_top (g : bytes -> option cell) (c : cond) : option bool :=
 
 (** The evaluator's list is a conjunction evaluated left to right with a keep-mask: a later
     condition is only evaluated on rows that are still kept. *)
-Fixpoint conj (ev : cond -> option bool) (cs : list cond) : option bool :=
+Fixpoint all_conds (ev : cond -> option bool) (cs : list cond) : option bool :=
   match cs with
   | [] => Some true
-  | c :: cs' => match ev c with Some true => conj ev cs' | r => r end
+  | c :: cs' => match ev c with Some true => all_conds ev cs' | r => r end
   end.
 
 (** the complete row filters of a query ([build_from_plan]: WHERE conditions, then
@@ -261,12 +261,12 @@ Definition where_conds (q : query) : list cond :=
   match q_where q with Some e => build e | None => [] end.
 
 Definition filter_mem (sch : schema) (q : query) (ev : event) : option bool :=
-  match conj (eval_mem (mem_get sch (ev_row ev))) (where_conds q) with
+  match all_conds (eval_mem (mem_get sch (ev_row ev))) (where_conds q) with
   | Some true => Some (ctx_ok q ev)
   | r => r
   end.
 Definition filter_seg (sch : schema) (q : query) (zrows : list event) (ev : event) : option bool :=
-  match conj (eval_seg_top (seg_get sch (hollow_in sch zrows) (ev_row ev))) (where_conds q) with
+  match all_conds (eval_seg_top (seg_get sch (hollow_in sch zrows) (ev_row ev))) (where_conds q) with
   | Some true => Some (ctx_ok q ev)
   | r => r
   end.
